@@ -34,6 +34,7 @@ func (prop) Rule() string {
 		"reports whether it reached the state-store Put (value it is about to persist), blocks on the peer lock, or returned; release <thread> lets a parked " +
 		"Put through (in any order the generator picks: FIFO, LIFO, random; the second starter of a peer is released first in 1/3 of the cases); " +
 		"restart aborts in-flight writes and rebuilds the service on the same store (+Init); get/pay/lastsent observe memory, store and cheques; " +
+		"hs <peer> <cum> is the settlement handshake of a registered peer presenting a cheque of ours for <cum> (really signed; lower, equal or higher than the recorded last cheque; oracle last-cheque-lowered); " +
 		"refresh <peer> r|t <amount> (quiescent node only) runs TrafficInit with its read of that peer's persisted total parked after the read, starts a " +
 		"PutRetrieveTraffic/PutTransferTraffic meanwhile, then lets the refresh go on (the update either waits for the peer lock or slips in between). " +
 		"Fixed regression cases fix-stale-persist* (T1 reads 5, T2 updates to 8 and persists, T1 persists last) first. " +
@@ -51,6 +52,13 @@ func (prop) Gen(r *core.Rand, tier string) []core.Case {
 		{ID: "fix-stale-persist-then-pay", NT: true, Ops: []string{"reg 0 1", "start 0 0 r 5", "start 1 0 r 3", "release 1", "release 0", "release 1", "pay 0", "restart", "get 0", "start 2 0 r 4", "release 2", "pay 0", "lastsent 0"}},
 		{ID: "fix-refresh-overlaps-update", NT: true, Ops: []string{"reg 0 1", "start 0 0 t 100", "release 0", "refresh 0 t 5", "get 0", "start 1 0 t 1", "release 1", "get 0", "restart", "get 0"}},
 		{ID: "fix-refresh-overlaps-update-retrieve", NT: true, Ops: []string{"reg 0 1", "start 0 0 r 100", "release 0", "pay 0", "refresh 0 r 5", "get 0", "start 1 0 r 1", "release 1", "get 0", "pay 0", "restart", "get 0", "lastsent 0"}},
+		// handshake: the peer presents an older cheque (must not replace the record), the same one, a newer one
+		// (a cheque whose record was lost); then restart and pay again
+		{ID: "fix-handshake-stale-cheque", NT: true, Ops: []string{"reg 0 1", "start 0 0 r 100", "release 0", "pay 0", "start 1 0 r 150", "release 1", "pay 0", "lastsent 0",
+			"hs 0 100", "lastsent 0", "get 0", "hs 0 250", "lastsent 0", "restart", "lastsent 0", "get 0", "start 2 0 r 10", "release 2", "pay 0", "lastsent 0",
+			"hs 0 300", "lastsent 0", "get 0", "pay 0", "restart", "get 0", "lastsent 0", "start 3 0 r 5", "release 3", "pay 0", "hs 1 5", "hs 7 5"}},
+		// known finding: a peer known only by an adopted last-sent cheque is not restored at start-up
+		{ID: "fix-known-cheque-only-peer", NT: true, Ops: []string{"reg 0 1", "hs 0 300", "lastsent 0", "get 0", "restart", "get 0", "lastsent 0", "start 0 0 r 5", "release 0", "pay 0", "lastsent 0"}},
 		{ID: "fix-crash-midway", NT: true, Ops: []string{"reg 0 1", "start 0 0 r 5", "release 0", "start 1 0 r 3", "restart", "get 0", "start 2 0 r 1", "release 2", "get 0"}},
 	}
 	for i := 0; i < n; i++ {
@@ -115,6 +123,9 @@ func (prop) Gen(r *core.Rand, tier string) []core.Case {
 				c.Ops = append(c.Ops, fmt.Sprintf("refresh %d %s %d", pp, d, r.Range(1, 30)), "get "+strconv.Itoa(pp))
 			case x == 10:
 				c.Ops = append(c.Ops, "pay "+strconv.Itoa(r.Intn(np)))
+			case x == 11 && r.Chance(50):
+				pp := r.Intn(np)
+				c.Ops = append(c.Ops, fmt.Sprintf("hs %d %d", pp, r.Pick([]int{0, 1, r.Range(1, 30), r.Range(1, 60), r.Range(20, 200)})), "lastsent "+strconv.Itoa(pp))
 			case x == 11:
 				c.Ops = append(c.Ops, "lastsent "+strconv.Itoa(r.Intn(np)))
 			default:
@@ -157,6 +168,8 @@ type runner struct {
 	threads map[int]*thread // active (not yet returned)
 	// oracle
 	delivered   map[int]*big.Int // addr -> last delivered cumulative payout
+	adopted     map[int]*big.Int // addr -> cheque adopted at a handshake since the last restart (raises the owed total in memory)
+	lostCheque  map[int]bool     // addr -> a restart found a last sent cheque but no persisted total (the peer is not restored: known finding)
 	completedR  map[int]*big.Int // addr -> highest total whose persist completed (retrieve)
 	completedT  map[int]*big.Int
 	updatedR    map[int]bool // addr -> an update completed since the last restart
@@ -316,8 +329,16 @@ func (rn *runner) quiescentCheck(ctx *core.Ctx) {
 		if !ok {
 			continue
 		}
-		if rn.updatedR[a] && stR.Cmp(memR) != 0 {
-			ctx.Fail("stale-persist-retrieve", "peer %d quiescent: persisted retrieve total %s != total in memory %s", p, stR, memR)
+		// what a restart restores for the owed total is max(persisted total, last sent cheque): a handshake that adopts a
+		// higher cheque raises the total in memory and the persisted cheque, not the persisted total
+		plain := stR
+		if c, err := rn.env.Svc.LastSentCheque(settle.Peer(p)); err == nil && c.CumulativePayout.Cmp(stR) > 0 {
+			stR = c.CumulativePayout
+		}
+		// (a peer hit by the known finding restart-below-before.cheque-only-peer restarts at 0 with its old cheque still
+		// persisted: there the plain persisted total is what memory holds until the next refresh)
+		if rn.updatedR[a] && stR.Cmp(memR) != 0 && !(rn.lostCheque[a] && plain.Cmp(memR) == 0) {
+			ctx.Fail("stale-persist-retrieve", "peer %d quiescent: restorable retrieve total (max of persisted total and last sent cheque) %s != total in memory %s", p, stR, memR)
 			rn.updatedR[a] = false
 		}
 		if rn.updatedT[a] && stT.Cmp(memT) != 0 {
@@ -600,6 +621,13 @@ func (rn *runner) do(ctx *core.Ctx, op []string, atoi func(string) (int, bool)) 
 		quiescent := len(rn.threads) == 0
 		type tot struct{ r, t *big.Int }
 		before := map[int]tot{}
+		hadTotals := map[int]bool{}
+		for p, a := range rn.reg {
+			var v big.Int
+			e1 := rn.env.Raw.Get(fmt.Sprintf("retrieved_traffic__%x", settle.Addr(a)), &v)
+			e2 := rn.env.Raw.Get(fmt.Sprintf("transferred_traffic__%x", settle.Addr(a)), &v)
+			hadTotals[p] = e1 == nil || e2 == nil
+		}
 		if quiescent {
 			for p := range rn.reg {
 				if memR, memT, _, _, ok := rn.totals(p); ok {
@@ -609,6 +637,15 @@ func (rn *runner) do(ctx *core.Ctx, op []string, atoi func(string) (int, bool)) 
 		}
 		rn.abortAll()
 		rn.updatedR, rn.updatedT = map[int]bool{}, map[int]bool{}
+		rn.adopted = map[int]*big.Int{}
+		if rn.lostCheque == nil {
+			rn.lostCheque = map[int]bool{}
+		}
+		for p, a := range rn.reg {
+			if _, err := rn.env.Svc.LastSentCheque(settle.Peer(p)); err == nil && !hadTotals[p] {
+				rn.lostCheque[a] = true
+			}
+		}
 		rn.env.Restart()
 		if err := rn.env.Svc.Init(); err != nil {
 			return "err"
@@ -627,7 +664,12 @@ func (rn *runner) do(ctx *core.Ctx, op []string, atoi func(string) (int, bool)) 
 			}
 			if b, ok := before[p]; ok && quiescent {
 				if memR.Cmp(b.r) < 0 || memT.Cmp(b.t) < 0 {
-					ctx.Fail("restart-below-before", "peer %d: totals %s/%s before a quiescent restart, %s/%s after", p, b.r, b.t, memR, memT)
+					clause := "restart-below-before"
+					if !hadTotals[p] {
+						// the peer had no persisted traffic total at all: its totals came from a cheque adopted at handshake
+						clause = "restart-below-before.cheque-only-peer"
+					}
+					ctx.Fail(clause, "peer %d: totals %s/%s before a quiescent restart, %s/%s after", p, b.r, b.t, memR, memT)
 				}
 			}
 			if l, err := rn.env.Svc.LastSentCheque(settle.Peer(p)); err == nil {
@@ -675,10 +717,57 @@ func (rn *runner) do(ctx *core.Ctx, op []string, atoi func(string) (int, bool)) 
 		}
 		cum := em[0].Cheque.CumulativePayout
 		if d, ok := rn.delivered[a]; ok && cum.Cmp(d) <= 0 {
-			ctx.Fail("repay", "peer %d: new cheque cumulative payout %s <= already delivered %s", p, cum, d)
+			clause := "repay"
+			if rn.lostCheque[a] {
+				clause = "repay.cheque-only-peer" // consequence of restart-below-before.cheque-only-peer
+			}
+			ctx.Fail(clause, "peer %d: new cheque cumulative payout %s <= already delivered %s", p, cum, d)
 		}
 		rn.delivered[a] = new(big.Int).Set(cum)
 		return "ok " + cum.String()
+	case len(op) == 3 && op[0] == "hs":
+		// the settlement handshake of a registered peer that presents the cheque it holds from us (cumulative payout
+		// op[2], really signed with the node's key): a higher one replaces our record, a lower or equal one must not
+		p, ok := atoi(op[1])
+		cum, ok2 := atoi(op[2])
+		if !ok || !ok2 || p >= nPeers {
+			return "bad-op"
+		}
+		a, known := rn.reg[p]
+		if !known {
+			return "unknown"
+		}
+		if active, _ := rn.busy(a); active {
+			return "busy"
+		}
+		before := big.NewInt(0)
+		if c, err := rn.env.Svc.LastSentCheque(settle.Peer(p)); err == nil {
+			before = c.CumulativePayout
+		}
+		sc, err := settle.SignCheque(settle.Self(), settle.Addr(a), big.NewInt(int64(cum)), 0)
+		if err != nil {
+			return "err"
+		}
+		if err := rn.env.Svc.Handshake(settle.Peer(p), settle.Addr(a), *sc); err != nil {
+			return "err"
+		}
+		after := big.NewInt(0)
+		if c, err := rn.env.Svc.LastSentCheque(settle.Peer(p)); err == nil {
+			after = c.CumulativePayout
+		}
+		if after.Cmp(before) < 0 {
+			ctx.Fail("last-cheque-lowered", "peer %d: handshake with a cheque for %d lowered the last sent cheque from %s to %s", p, cum, before, after)
+		}
+		if after.Cmp(before) > 0 {
+			if rn.adopted == nil {
+				rn.adopted = map[int]*big.Int{}
+			}
+			rn.adopted[a] = after
+		}
+		if d, ok := rn.delivered[a]; !ok || d.Cmp(big.NewInt(int64(cum))) < 0 {
+			rn.delivered[a] = big.NewInt(int64(cum)) // the peer holds this cheque
+		}
+		return "ok"
 	case len(op) == 2 && op[0] == "lastsent":
 		p, ok := atoi(op[1])
 		if !ok || p >= nPeers {
